@@ -704,5 +704,5 @@ func TestVerif_C14(t *testing.T) {
 		"the collision handler returns its resolution as Diff{Key: left.Key, From: left.From, To: resolved value or nil for delete}, the way merge_prolly_rows.go does",
 		"handler invocations are compared as a set with exactly-once (their order is not part of the property)")
 	defer rec.Write(t)
-	vh.Check(t, "merge", 1800, 2500, func(rt *rapid.T) { c14Case(rt, rec) })
+	vh.Check(t, "merge", 3000, 2500, func(rt *rapid.T) { c14Case(rt, rec) })
 }
